@@ -2,7 +2,7 @@
  * that agree on everything the schema text determines (expression class, literal value, referenced attribute name) and
  * DIFFER IN ADDRESSES (the union payload of a non-literal is a pointer, arbitrary and different in the two runs).
  * Assert: the two emitted texts are byte-identical, i.e. no generated number or name depends on the address-space layout. */
-#define VERIF_INPUTS(S,A) S(unsigned char,kind) S(int,lit) S(unsigned long,addr1) S(unsigned long,addr2) S(unsigned char,boundnr)
+#define VERIF_INPUTS(S,A) S(unsigned char,kind) S(int,lit) S(unsigned long,addr1) S(unsigned long,addr2) S(unsigned char,boundnr) S(unsigned char,rt)
 #include "verif.h"
 #include "verif_capture.h"
 #include <stdio.h>
@@ -39,6 +39,8 @@ void harness(void) {
     } else {                 /* function call bound */
         e1.type = e2.type = Type_Funcall; e1.u.entity = (void *)addr1; e2.u.entity = (void *)addr2;
     }
+    /* static result type of a non-literal bound: unset, INTEGER (e.g. reference to an INTEGER constant) or something else */
+    if(kind != 0) { struct Scope_ *r = (rt % 3 == 0) ? 0 : ((rt % 3 == 1) ? Type_Integer : Type_Identifier); e1.return_type = e2.return_type = r; }
     run(&e1, out1); run(&e2, out2);
     OBS("out1=[%s]", out1);
     for(i = 0; i < VERIF_OUT_CAP; i++) if(out1[i] != out2[i]) same = 0;
